@@ -393,8 +393,11 @@ impl Driver {
 }
 
 // ---- driver/streams: holders of the peer's critical streams ------------------------------------------
-#[verifier::external_body]
-struct WatchSender { x: u8 }
+// tokio::sync::watch::Sender<Option<Settings>>: the last value sent (see unit driver_streams)
+struct WatchSender { value: Option<Settings> }
+impl WatchSender {
+    fn borrow(&self) -> (r: &Option<Settings>) ensures *r == self.value { &self.value }
+}
 // ---- our control stream (C16: exactly one, typed Control, SETTINGS sent once as its first frame) ------
 // stream_header.rs `StreamHeader::new_control()` is the Control header without session id (its encoding
 // is under contract in units stream_header / frame_write and Kani p_stream_header_write_*)
